@@ -46,7 +46,7 @@ static const BoxT boxes[2][5] = {
 enum { BA, BB, BC, BD, BE };
 
 // ---------------------------------------------------------------- arrays ---
-enum Arr { PORO, NTG, PERMX, PERMY, MULTX, MULTNUM, FLUXNUM, SWATINIT, SATNUM, FIPNUM, PRESSURE, MULTX_EDIT, NARR };
+enum Arr { PORO, NTG, PERMX, PERMY, MULTX, MULTNUM, FLUXNUM, SWATINIT, SATNUM, FIPNUM, PRESSURE, SWAT, MULTPV, MULTX_EDIT, NARR };
 static const double MD = 9.869232667160130e-16, BAR = 1.0e5;
 struct Meta { const char* name; bool is_int; bool has_init; double init; bool has_idef; double idef; double unit; bool global; bool mult; bool top; };
 static const Meta meta[NARR] = {
@@ -62,7 +62,20 @@ static const Meta meta[NARR] = {
     {"SATNUM",     1,   1, 1,     0, 0,         1,    0,     0,    0},
     {"FIPNUM",     1,   1, 1,     0, 0,         1,    0,     0,    0},
     {"PRESSURE",   0,   0, 0,     0, 0,         BAR,  0,     0,    0},
+    {"SWAT",       0,   0, 0,     0, 0,         1,    0,     0,    0},
+    {"MULTPV",     0,   1, 1,     0, 0,         1,    0,     1,    0},     // only in the base deck (zero-pore-volume mechanism)
     {"MULTX@EDIT", 0,   1, 1,     1, 1,         1,    0,     1,    0}};
+
+// ------------------------------------------- inactive-cell pattern + mechanism ---
+// How a set of cells is taken out: ACTNUM (act: bit c = cell c active, -1 = no ACTNUM keyword) and/or zero pore
+// volume through PORO = 0 (zp), NTG = 0 (zn) or MULTPV = 0 (zm) in the base deck.  Zero-pore-volume cells are ACTIVE
+// while GRID and EDIT are processed and are removed (all existing arrays re-compacted) before PROPS/REGIONS/SOLUTION.
+struct Pat { long act = -1; unsigned zp = 0, zn = 0, zm = 0; bool late() const { return zp || zn || zm; } };
+static std::string pat_str(const Pat& p) { std::string s = std::to_string(p.act); if (p.late()) s += "/" + std::to_string(p.zp) + "/" + std::to_string(p.zn) + "/" + std::to_string(p.zm); return s; }
+static Pat pat_parse(const std::string& t) { Pat p; unsigned long a = 0, b = 0, c = 0; long act = -1; int k = std::sscanf(t.c_str(), "%ld/%lu/%lu/%lu", &act, &a, &b, &c); p.act = act; if (k == 4) { p.zp = a; p.zn = b; p.zm = c; } return p; }
+static double base_poro(const Pat& p, int c) { return ((p.zp >> c) & 1) ? 0.0 : 0.20 + 0.01 * c; }
+static double base_ntg(const Pat& p, int c) { return ((p.zn >> c) & 1) ? 0.0 : 0.80 + 0.02 * c; }
+static double base_multpv(const Pat& p, int c) { return ((p.zm >> c) & 1) ? 0.0 : 1.0 + 0.5 * (c % 2); }
 
 // ------------------------------------------------------------------- ops ---
 enum Sec { S_GRID, S_EDIT, S_PROPS, S_REGIONS, S_SOLUTION, NSEC };
@@ -73,6 +86,7 @@ struct Rec { int tgt = -1, src = -1; double val = 0; int box = -1; std::string f
 struct Op {
     std::string name, cls; Sec sec; Kind kind; std::string kw;   // kw: EQUALS/ADD/... for scalar + region kinds
     int arr = -1, box = -1; std::vector<Ent> data; std::vector<Rec> recs; bool core = true; bool core4 = false; bool unit_nonlinear = false;
+    bool late_only = false;   // only in the late-deactivation alphabet (operations after the compaction), not in `all`
 };
 
 static std::string num(double v) { char s[40]; std::snprintf(s, sizeof s, "%.10g", v); return s; }
@@ -200,6 +214,21 @@ static std::vector<Op> make_ops(int g) {
     assign("PRESSURE_all", S_SOLUTION, PRESSURE, seq(n, 200, 1.5), false);
     { Op o; o.name = "EQUALREG_PRESSURE"; o.sec = S_SOLUTION; o.kind = K_REGSCALAR; o.kw = "EQUALREG"; o.recs = {rrec(PRESSURE, 300, 1, MULTNUM, true)}; o.core = false; add(o); }
     { Op o; o.name = "OPERATER_PRESSURE_FIP"; o.cls = "OPERATER-ADDX"; o.sec = S_SOLUTION; o.kind = K_OPERATER; Rec r = orec(PRESSURE, -1, "ADDX", PRESSURE, 10, 0); r.reg = 2; r.set = FIPNUM; o.recs = {r}; o.core = false; add(o); }
+    // ---------------- operations AFTER the zero-pore-volume compaction, driven by region arrays defined before it (late regimes only)
+    {
+        const size_t first_late = v.size();
+        { Op o; o.name = "EQUALREG_SWATINIT_r2"; o.sec = S_PROPS; o.kind = K_REGSCALAR; o.kw = "EQUALREG"; o.recs = {rrec(SWATINIT, 0.3, 2, MULTNUM, true)}; add(o); }
+        { Op o; o.name = "ADDREG_SWATINIT_r1"; o.sec = S_PROPS; o.kind = K_REGSCALAR; o.kw = "ADDREG"; o.recs = {rrec(SWATINIT, 0.0625, 1, MULTNUM, false)}; add(o); }
+        { Op o; o.name = "EQUALREG_SWATINIT_F1"; o.sec = S_PROPS; o.kind = K_REGSCALAR; o.kw = "EQUALREG"; o.recs = {rrec(SWATINIT, 0.45, 1, FLUXNUM, false)}; add(o); }
+        { Op o; o.name = "OPERATER_SWATINIT"; o.cls = "OPERATER-MULTA"; o.sec = S_PROPS; o.kind = K_OPERATER; Rec r = orec(SWATINIT, -1, "MULTA", SWATINIT, 0.5, 0.125); r.reg = 2; r.set = MULTNUM; o.recs = {r}; add(o); }
+        { Op o; o.name = "COPYREG_SATNUM_FIPNUM_r1"; o.sec = S_REGIONS; o.kind = K_COPYREG; o.kw = "COPYREG"; Rec r = crec(SATNUM, FIPNUM, -1); r.reg = 1; r.set = MULTNUM; r.set_default = true; o.recs = {r}; add(o); }
+        { Op o; o.name = "MULTIREG_PRESSURE_r2"; o.sec = S_SOLUTION; o.kind = K_REGSCALAR; o.kw = "MULTIREG"; o.recs = {rrec(PRESSURE, 1.5, 2, MULTNUM, false)}; add(o); }
+        scalar("MULTIPLY_PRESSURE_A", S_SOLUTION, "MULTIPLY", {rec(PRESSURE, 2, BA)});
+        { Op o; o.name = "COPY_SWATINIT_SWAT_B"; o.sec = S_SOLUTION; o.kind = K_COPY; o.kw = "COPY"; o.recs = {crec(SWATINIT, SWAT, BB)}; add(o); }
+        { Op o; o.name = "COPYREG_SWATINIT_SWAT_r1"; o.sec = S_SOLUTION; o.kind = K_COPYREG; o.kw = "COPYREG"; Rec r = crec(SWATINIT, SWAT, -1); r.reg = 1; r.set = MULTNUM; o.recs = {r}; add(o); }
+        scalar("EQUALS_SWATINIT", S_PROPS, "EQUALS", {rec(SWATINIT, 0.2, -1)});
+        for (size_t i = first_late; i < v.size(); ++i) { v[i].core = false; v[i].late_only = true; }
+    }
     // pruned alphabet for the depth-4 regime (PERMX-centred: undefined cells, all-cells storage, boxes, regions)
     for (auto& o : v) for (const char* nm : {"PERMX_all", "PERMX_rep_def", "PERMX_n4", "BOX_A", "BOX_B", "ENDBOX", "EQUALS_PERMX", "EQUALS_2rec", "ADD_PERMX_B", "MULTIPLY_PERMX_C", "COPY_PERMX_PERMY_A", "MINVALUE_PERMX_E", "OPERATE_MULTA_C", "MULTNUM_all", "EQUALS_MULTNUM_D", "EQUALREG_PERMX_r1", "ADDREG_PERMX", "COPYREG_PERMX_PERMY", "OPERATER_MULTA", "EQUALS_MULTX_edit_B", "SATNUM_def", "EQUALS_PRESSURE_C"}) if (o.name == nm) o.core4 = true;
     return v;
@@ -207,7 +236,7 @@ static std::vector<Op> make_ops(int g) {
 
 // ------------------------------------------------- reference interpreter ---
 enum St : unsigned char { UNDEF = 0, DEF = 1, VAL = 2 };
-struct RArr { bool exists = false; std::vector<double> v; std::vector<unsigned char> s; int last_op = -1; };
+struct RArr { bool exists = false, base = false; std::vector<double> v; std::vector<unsigned char> s; int last_op = -1; };
 
 static double opfun(const std::string& f, double R, double X, double a, double b) {
     if (f == "MULTA") return a * X + b;
@@ -228,13 +257,19 @@ static double opfun(const std::string& f, double R, double X, double a, double b
 }
 
 struct Ref {
-    const GridT& G; unsigned mask; const BoxT* bx;
+    const GridT& G; unsigned mask; const BoxT* bx;      // mask: cells active NOW (ACTNUM during GRID/EDIT, minus zero-pore-volume cells afterwards)
+    unsigned gridmask, revived = 0; Pat pat;
     RArr arr[NARR]; BoxT cur; Sec sec = S_GRID;
     bool illegal = false, strict_illegal = false; std::string why;
-    Ref(const GridT& g, unsigned m, const BoxT* b) : G(g), mask(m), bx(b) {
+    Ref(const GridT& g, const Pat& p, const BoxT* b) : G(g), bx(b), pat(p) {
+        mask = gridmask = p.act < 0 ? (1u << G.n()) - 1 : (unsigned)p.act;
         cur = full_box(G); for (auto& a : arr) { a.v.assign(G.n(), 0.0); a.s.assign(G.n(), UNDEF); }
-        // base deck: PORO and NTG explicitly assigned everywhere (same numbers as deck_text)
-        for (int a : {PORO, NTG}) { arr[a].exists = true; for (int c = 0; c < G.n(); ++c) { arr[a].v[c] = a == PORO ? 0.20 + 0.01 * c : 0.80 + 0.02 * c; arr[a].s[c] = VAL; } }
+        // base deck: PORO and NTG (and MULTPV for that mechanism) explicitly assigned everywhere (same numbers as deck_text)
+        for (int a : {PORO, NTG, MULTPV}) {
+            if (a == MULTPV && !p.zm) continue;
+            arr[a].exists = arr[a].base = true;
+            for (int c = 0; c < G.n(); ++c) { arr[a].v[c] = a == PORO ? base_poro(p, c) : a == NTG ? base_ntg(p, c) : base_multpv(p, c); arr[a].s[c] = VAL; }
+        }
     }
     bool act(int g) const { return (mask >> g) & 1u; }
     void fail(const std::string& w) { if (!illegal) why = w; illegal = true; }
@@ -256,6 +291,14 @@ struct Ref {
                 ensure(MULTX);
                 for (int g = 0; g < G.n(); ++g) arr[MULTX].v[g] *= arr[MULTX_EDIT].v[g];
                 arr[MULTX].last_op = arr[MULTX_EDIT].last_op;
+            }
+            if (sec == S_EDIT) {                              // after EDIT: cells with zero pore volume (PORO*NTG*MULTPV) leave the active set
+                for (int g = 0; g < G.n(); ++g) {
+                    if (!((mask >> g) & 1u)) continue;
+                    const double pv = arr[PORO].v[g] * arr[NTG].v[g] * (arr[MULTPV].exists ? arr[MULTPV].v[g] : 1.0);
+                    if (pv == 0) mask &= ~(1u << g);
+                }
+                revived = mask & (pat.zp | pat.zn | pat.zm);      // zeroed in the base deck but given pore volume by the program
             }
             sec = Sec(sec + 1); cur = full_box(G);          // the input box does not survive a section
         }
@@ -412,17 +455,20 @@ struct LibArr {
     std::vector<double> v, gv, sv;    // by GLOBAL cell: get_*() values, get_global_*() values, all-cells storage values
     std::vector<unsigned char> def, sdef;   // by GLOBAL cell: active-cell array / all-cells storage holds a value
 };
-struct LibRes { bool threw = false; std::string err; int nactive = -1; LibArr a[NARR]; };
+struct LibRes { bool threw = false; std::string err; int nactive = -1; unsigned actmask = 0; LibArr a[NARR]; };
 
+static int popcnt(unsigned m) { int c = 0; while (m) { c += m & 1; m >>= 1; } return c; }
 static Parser* g_parser;
 static vf::Run* R;
 
-static std::string deck_text(int g, long mask, const std::vector<Op>& ops, const std::vector<int>& prog) {
+static std::string deck_text(int g, const Pat& pat, const std::vector<Op>& ops, const std::vector<int>& prog) {
+    const long mask = pat.act;
     const GridT& G = grids[g]; const int n = G.n();
     std::string s = "RUNSPEC\nTITLE\n C12\nDIMENS\n " + std::to_string(G.nx) + " " + std::to_string(G.ny) + " " + std::to_string(G.nz) + " /\nMETRIC\nOIL\nWATER\nGRIDOPTS\n YES 4 /\nTABDIMS\n 8 8 /\nREGDIMS\n 8 /\n";
     s += "GRID\nDX\n " + std::to_string(n) + "*100 /\nDY\n " + std::to_string(n) + "*100 /\nDZ\n " + std::to_string(n) + "*10 /\nTOPS\n " + std::to_string(G.nx * G.ny) + "*2000 /\n";
     if (mask >= 0) { s += "ACTNUM\n"; for (int c = 0; c < n; ++c) s += ((mask >> c) & 1) ? " 1" : " 0"; s += " /\n"; }
-    s += "PORO\n" + data_txt(seq(n, 0.20, 0.01)) + " /\nNTG\n" + data_txt(seq(n, 0.80, 0.02)) + " /\n";
+    { std::vector<Ent> po, nt, mp; for (int c = 0; c < n; ++c) { po.push_back({1, false, base_poro(pat, c)}); nt.push_back({1, false, base_ntg(pat, c)}); mp.push_back({1, false, base_multpv(pat, c)}); }
+      s += "PORO\n" + data_txt(po) + " /\nNTG\n" + data_txt(nt) + " /\n"; if (pat.zm) s += "MULTPV\n" + data_txt(mp) + " /\n"; }
     int sec = S_GRID;
     for (int p : prog) { while (sec < ops[p].sec) { ++sec; s += std::string(sec_name[sec]) + "\n"; } s += render(g, ops[p]); }
     while (sec < S_SOLUTION) { ++sec; s += std::string(sec_name[sec]) + "\n"; }
@@ -430,16 +476,23 @@ static std::string deck_text(int g, long mask, const std::vector<Op>& ops, const
     return s;
 }
 
-static LibRes run_lib(int g, long mask, const std::vector<Op>& ops, const std::vector<int>& prog) {
+static LibRes run_lib(int g, const Pat& pat, const std::vector<Op>& ops, const std::vector<int>& prog) {
     LibRes r;
     bool want_partial[NARR] = {}; for (int p : prog) { if (ops[p].arr >= 0) want_partial[ops[p].arr] = true; for (auto& rc : ops[p].recs) { if (rc.tgt >= 0) want_partial[rc.tgt] = true; if (rc.src >= 0) want_partial[rc.src] = true; } } const GridT& G = grids[g]; const int n = G.n();
-    const unsigned m = mask < 0 ? (1u << n) - 1 : (unsigned)mask;
+    unsigned m = 0; want_partial[PORO] = want_partial[NTG] = true; if (pat.zm) want_partial[MULTPV] = true;
     R->evaluations++;
     try {
-        auto deck = g_parser->parseString(deck_text(g, mask, ops, prog));
+        auto deck = g_parser->parseString(deck_text(g, pat, ops, prog));
         EclipseState es(deck);
         const auto& fp = es.fieldProps();
         r.nactive = (int)fp.active_size();
+        {   // the library's own final active set maps active indices to cells; it is compared with the reference's in judge()
+            const auto& an = es.getInputGrid().getACTNUM();
+            if ((int)an.size() != n) throw std::runtime_error("C12-harness: ACTNUM size");
+            for (int c = 0; c < n; ++c) if (an[c]) m |= 1u << c;
+            r.actmask = m;
+            if (popcnt(m) != r.nactive) throw std::runtime_error("C12-harness: grid ACTNUM and field-property active size disagree");
+        }
         for (int a = 0; a < MULTX_EDIT; ++a) {
             LibArr& L = r.a[a]; const std::string nm = meta[a].name;
             L.has = meta[a].is_int ? fp.has_int(nm) : fp.has_double(nm);
@@ -477,10 +530,9 @@ static LibRes run_lib(int g, long mask, const std::vector<Op>& ops, const std::v
 }
 
 static bool close_rel(double a, double b) { if (a == b) return true; return std::fabs(a - b) <= 1e-12 * std::max(std::fabs(a), std::fabs(b)); }
-static int popcnt(unsigned m) { int c = 0; while (m) { c += m & 1; m >>= 1; } return c; }
 
 static std::string prog_str(const std::vector<Op>& ops, const std::vector<int>& prog) { std::string s; for (int p : prog) { s += ops[p].name; s += ' '; } return s; }
-static std::string case_str(int g, long mask, const std::vector<int>& prog) { return std::to_string(g) + " " + std::to_string(mask) + " " + vf::join_ints(prog, " "); }
+static std::string case_str(int g, const Pat& pat, const std::vector<int>& prog) { return std::to_string(g) + " " + pat_str(pat) + (prog.empty() ? "" : " ") + vf::join_ints(prog, " "); }
 static std::string first_line(const std::string& s) { std::string t = s.substr(0, 160); for (auto& c : t) if (c == '\n') c = ' '; return t; }
 
 static bool g_verbose = false;
@@ -489,16 +541,17 @@ struct Finding { std::string cls, kind, what; };
 // Judge one (grid, mask, program) execution.  `full` is the all-active run of the same program (no ACTNUM keyword).
 // Findings are returned (not recorded) so that the caller can attribute them to the shortest failing prefix;
 // counters and observations only when `count`.
-static std::vector<Finding> judge(int g, long maskarg, const std::vector<Op>& ops, const std::vector<int>& prog, const LibRes& lib, const LibRes* full, bool count) {
+static std::vector<Finding> judge(int g, const Pat& pat, const std::vector<Op>& ops, const std::vector<int>& prog, const LibRes& lib, const LibRes* full, bool count) {
     std::vector<Finding> out;
     const GridT& G = grids[g]; const int n = G.n();
-    const unsigned mask = maskarg < 0 ? (1u << n) - 1 : (unsigned)maskarg;
-    Ref ref(G, mask, boxes[g]);
+    Ref ref(G, pat, boxes[g]);
     for (size_t i = 0; i < prog.size(); ++i) ref.apply(ops[prog[i]], (int)i);
     ref.finish();
-    const std::string cs = case_str(g, maskarg, prog), ps = prog_str(ops, prog);
-    const std::string lastcls = ops[prog.back()].cls;
-    auto cls_of = [&](int a) { int lo = ref.arr[a].last_op; return lo >= 0 ? ops[prog[lo]].cls : lastcls; };
+    const unsigned mask = ref.mask;        // final active set according to the reference
+    const std::string cs = case_str(g, pat, prog), ps = prog_str(ops, prog);
+    const std::string lastcls = prog.empty() ? std::string("BASE") : ops[prog.back()].cls;
+    // arrays of the base deck the program never wrote are attributed to BASE
+    auto cls_of = [&](int a) { int lo = ref.arr[a].last_op; return lo >= 0 ? ops[prog[lo]].cls : (ref.arr[a].base ? std::string("BASE") : lastcls); };
     if (g_verbose) {
         std::printf("case %s : %s\nreference: %s%s\nlibrary: %s\n", cs.c_str(), ps.c_str(), ref.illegal ? "ILLEGAL " : (ref.strict_illegal ? "ILLEGAL(global storage rule) " : "legal"), ref.why.c_str(), lib.threw ? ("THROWS " + lib.err).c_str() : "ok");
         for (int a = 0; a < MULTX_EDIT; ++a) {
@@ -529,17 +582,21 @@ static std::vector<Finding> judge(int g, long maskarg, const std::vector<Op>& op
         return out;
     }
     if (count) { if (ref.strict_illegal) R->count("global_storage_rule_not_enforced_by_library"); R->count("legal_compared"); if (std::getenv("C12_OPSTATS")) for (int p : prog) R->count("legal_with:" + ops[p].name); }
-    if (lib.nactive != popcnt(mask)) { out.push_back({"harness", "activity-changed", "number of active cells " + std::to_string(lib.nactive) + " != ACTNUM " + std::to_string(popcnt(mask))}); return out; }
+    if (lib.actmask != mask) {
+        auto bits = [&](unsigned m) { std::string b; for (int c = 0; c < n; ++c) b += ((m >> c) & 1) ? '1' : '0'; return b; };
+        out.push_back({pat.late() ? "DEACT" : "harness", "activity", "final active cells " + bits(lib.actmask) + " in the library, " + bits(mask) + " expected (ACTNUM and cells with PORO*NTG*MULTPV = 0 after EDIT)"}); return out;
+    }
+    if (count && pat.late()) { R->count("late_deactivation_compared"); if (ref.gridmask != mask) R->count("late_deactivation_compared_cells_removed"); if (ref.revived) R->count("late_deactivation_cells_revived_by_program"); }
     // ---- oracle 1: reference
     uint64_t h = 1469598103934665603ull;
     for (int a = 0; a < MULTX_EDIT; ++a) {
         const RArr& A = ref.arr[a]; const LibArr& L = lib.a[a];
         const std::string ty = meta[a].is_int ? "int" : "double";
         if (!A.exists) continue;
-        if (A.last_op < 0 && a != PORO && a != NTG) continue;      // only referenced (e.g. as region set), never written: nothing to compare
+        if (A.last_op < 0 && !A.base) continue;      // only referenced (e.g. as region set), never written: nothing to compare
         const bool rvalid = ref.valid_active(a);
         const std::string c0 = cls_of(a), ckw = c0.substr(0, c0.find('-'));   // keyword without the OPERATE function
-        const std::string usfx = ops[prog[std::max(0, A.last_op)]].unit_nonlinear ? ":unit" : "";
+        const std::string usfx = (A.last_op >= 0 && ops[prog[A.last_op]].unit_nonlinear) ? ":unit" : "";
         bool bad = false;
         if (L.fd) {          // cell by cell (double arrays): has-value status, value, all-cells storage
             for (int c = 0; c < n && !bad; ++c) {
@@ -577,7 +634,7 @@ static std::vector<Finding> judge(int g, long maskarg, const std::vector<Op>& op
             if (F.has && !L.has) { if (ref.arr[a].exists) out.push_back({cls_of(a), "allactive:" + ty + ":missing", std::string(meta[a].name) + " is available on the all-active grid but not when other cells are inactive"}); continue; }
             if (!F.has || !L.has) continue;
             for (int c = 0; c < n; ++c) {
-                if (!ref.act(c)) continue;
+                if (!ref.act(c) || ((ref.revived >> c) & 1)) continue;      // revived cells had another base value: not comparable
                 if (L.v[c] != F.v[c] && !(std::isnan(L.v[c]) && std::isnan(F.v[c]))) { out.push_back({cls_of(a), "allactive:" + ty, std::string(meta[a].name) + " cell " + std::to_string(c) + " = " + vf::fmt17(L.v[c]) + " with inactive cells, " + vf::fmt17(F.v[c]) + " on the all-active grid"}); break; }
             }
         }
@@ -585,37 +642,40 @@ static std::vector<Finding> judge(int g, long maskarg, const std::vector<Op>& op
     return out;
 }
 
-static std::string replay_json(int g, long mask, const std::vector<Op>& ops, const std::vector<int>& prog) {
-    const GridT& G = grids[g]; const int n = G.n(); std::string b;
-    if (mask < 0) b = "none (no ACTNUM keyword)"; else for (int c = 0; c < n; ++c) b += ((mask >> c) & 1) ? '1' : '0';
-    return "{\"case\": " + vf::jstr(case_str(g, mask, prog)) + ", \"program\": " + vf::jstr(prog_str(ops, prog)) + ", \"grid\": " + vf::jstr(std::to_string(G.nx) + "x" + std::to_string(G.ny) + "x" + std::to_string(G.nz)) + ", \"actnum_cell0_first\": " + vf::jstr(b) + ", \"deck\": " + vf::jstr(deck_text(g, mask, ops, prog)) + "}";
+static std::string replay_json(int g, const Pat& pat, const std::vector<Op>& ops, const std::vector<int>& prog) {
+    const GridT& G = grids[g]; const int n = G.n(); std::string b; const long mask = pat.act;
+    auto bits = [&](unsigned m) { std::string t; for (int c = 0; c < n; ++c) t += ((m >> c) & 1) ? '1' : '0'; return t; };
+    if (mask < 0) b = "none (no ACTNUM keyword)"; else b = bits((unsigned)mask);
+    if (pat.late()) b += "; zero PORO " + bits(pat.zp) + " zero NTG " + bits(pat.zn) + " zero MULTPV " + bits(pat.zm);
+    return "{\"case\": " + vf::jstr(case_str(g, pat, prog)) + ", \"program\": " + vf::jstr(prog_str(ops, prog)) + ", \"grid\": " + vf::jstr(std::to_string(G.nx) + "x" + std::to_string(G.ny) + "x" + std::to_string(G.nz)) + ", \"actnum_cell0_first\": " + vf::jstr(b) + ", \"deck\": " + vf::jstr(deck_text(g, pat, ops, prog)) + "}";
 }
 
 // Record findings of (g, mask, prog).  Keys name the operation class of the SHORTEST prefix that already
 // misbehaves (same grid and mask), so that one defect gets one key whatever follows it in longer programs.
-static void record(int g, long mask, const std::vector<Op>& ops, const std::vector<int>& prog, std::vector<Finding> fs) {
+static bool is_plain(const Pat& p) { return p.act < 0 && !p.late(); }
+static void record(int g, const Pat& mask, const std::vector<Op>& ops, const std::vector<int>& prog, std::vector<Finding> fs) {
     std::vector<int> where = prog;
-    for (size_t k = 1; k < prog.size(); ++k) {
+    for (size_t k = 0; k < prog.size(); ++k) {          // k = 0: the base deck alone (key class BASE)
         std::vector<int> pre(prog.begin(), prog.begin() + k);
-        LibRes full = run_lib(g, -1, ops, pre);
-        LibRes lib = mask < 0 ? full : run_lib(g, mask, ops, pre);
-        auto f2 = judge(g, mask, ops, pre, lib, mask < 0 ? nullptr : &full, false);
+        LibRes full = run_lib(g, Pat{}, ops, pre);
+        LibRes lib = is_plain(mask) ? full : run_lib(g, mask, ops, pre);
+        auto f2 = judge(g, mask, ops, pre, lib, is_plain(mask) ? nullptr : &full, false);
         if (!f2.empty()) { fs = f2; where = pre; break; }
     }
     const std::string rp = replay_json(g, mask, ops, where);
     for (auto& f : fs) {
         R->count("violating_executions");
-        R->violation("C12:" + f.cls + ":" + f.kind, f.what + " after [" + prog_str(ops, where) + "] on grid " + std::to_string(grids[g].nx) + "x" + std::to_string(grids[g].ny) + "x" + std::to_string(grids[g].nz) + " ACTNUM(case) " + case_str(g, mask, where), rp);
+        R->violation("C12:" + f.cls + ":" + f.kind, f.what + " after [" + prog_str(ops, where) + "] on grid " + std::to_string(grids[g].nx) + "x" + std::to_string(grids[g].ny) + "x" + std::to_string(grids[g].nz) + " pattern(case) " + case_str(g, mask, where), rp);
     }
 }
 
 // One program on one grid: the all-active run plus every mask of the tier.
-static void run_program(int g, const std::vector<Op>& ops, const std::vector<int>& prog, const std::vector<unsigned>& masks) {
-    R->current(case_str(g, -1, prog));
-    LibRes full = run_lib(g, -1, ops, prog);
-    auto f = judge(g, -1, ops, prog, full, nullptr, true);       // the all-active run itself against the reference
-    if (!f.empty()) record(g, -1, ops, prog, f);
-    for (unsigned m : masks) {
+static void run_program(int g, const std::vector<Op>& ops, const std::vector<int>& prog, const std::vector<Pat>& masks) {
+    R->current(case_str(g, Pat{}, prog));
+    LibRes full = run_lib(g, Pat{}, ops, prog);
+    auto f = judge(g, Pat{}, ops, prog, full, nullptr, true);       // the all-active run itself against the reference
+    if (!f.empty()) record(g, Pat{}, ops, prog, f);
+    for (const Pat& m : masks) {
         R->current(case_str(g, m, prog));
         LibRes lib = run_lib(g, m, ops, prog);
         auto f1 = judge(g, m, ops, prog, lib, &full, true);
@@ -639,42 +699,83 @@ int main(int argc, char** argv) {
     Parser parser; g_parser = &parser;
     std::vector<Op> ops[2] = {make_ops(0), make_ops(1)};
 
-    if (!run.replay_path.empty()) {       // "<grid> <mask|-1> <op> <op> ..."
-        std::istringstream ss(run.replay_path); int g; long mask; ss >> g >> mask; std::vector<int> prog; int x; while (ss >> x) prog.push_back(x);
+    if (!run.replay_path.empty()) {       // "<grid> <pattern> <op> <op> ..."   pattern = <actnum|-1>[/<zeroPORO>/<zeroNTG>/<zeroMULTPV>]
+        std::istringstream ss(run.replay_path); int g; std::string pt; ss >> g >> pt; const Pat pat = pat_parse(pt); std::vector<int> prog; int x; while (ss >> x) prog.push_back(x);
         g_verbose = true;
-        const int n = grids[g].n();
-        std::printf("%s\n", deck_text(g, mask, ops[g], prog).c_str());
-        LibRes full = run_lib(g, -1, ops[g], prog);
-        LibRes lib = mask < 0 ? full : run_lib(g, mask, ops[g], prog);
-        auto f = judge(g, mask, ops[g], prog, lib, mask < 0 ? nullptr : &full, true);
+        std::printf("%s\n", deck_text(g, pat, ops[g], prog).c_str());
+        LibRes full = run_lib(g, Pat{}, ops[g], prog);
+        LibRes lib = is_plain(pat) ? full : run_lib(g, pat, ops[g], prog);
+        auto f = judge(g, pat, ops[g], prog, lib, is_plain(pat) ? nullptr : &full, true);
         g_verbose = false;
-        if (!f.empty()) record(g, mask, ops[g], prog, f);
+        if (!f.empty()) record(g, pat, ops[g], prog, f);
         return run.finish();
     }
 
     // ---- ACTNUM patterns (bit c = cell c active)
-    std::vector<unsigned> qmask[2] = {{0xFE, 0x7F, 0xEF, 0xF7, 0xDB, 0xA5, 0x5A, 0x3C, 0xC3, 0x0F, 0xF0, 0x81},
-                                      {0x3E, 0x1F, 0x3D, 0x2F, 0x2D, 0x15, 0x2A, 0x0C, 0x33, 0x07, 0x38, 0x21}};
-    std::vector<unsigned> allmask[2];
-    for (int g = 0; g < 2; ++g) for (unsigned m = 1; m < (1u << grids[g].n()); ++m) allmask[g].push_back(m);
+    auto pats = [](std::initializer_list<unsigned> l) { std::vector<Pat> v; for (unsigned m : l) { Pat p; p.act = m; v.push_back(p); } return v; };
+    std::vector<Pat> qmask[2] = {pats({0xFE, 0x7F, 0xEF, 0xF7, 0xDB, 0xA5, 0x5A, 0x3C, 0xC3, 0x0F, 0xF0, 0x81}),
+                                 pats({0x3E, 0x1F, 0x3D, 0x2F, 0x2D, 0x15, 0x2A, 0x0C, 0x33, 0x07, 0x38, 0x21})};
+    std::vector<Pat> allmask[2];
+    for (int g = 0; g < 2; ++g) for (unsigned m = 1; m < (1u << grids[g].n()); ++m) { Pat p; p.act = m; allmask[g].push_back(p); }
+    std::vector<Pat> q4[2] = {pats({0xF7, 0xDB, 0xA5, 0x0F}), pats({0x3D, 0x2D, 0x15, 0x38})};
 
-    std::vector<int> core4, core, all;
-    for (int i = 0; i < (int)ops[0].size(); ++i) { all.push_back(i); if (ops[0][i].core) core.push_back(i); if (ops[0][i].core4) core4.push_back(i); }
-    std::vector<unsigned> q4[2] = {{0xF7, 0xDB, 0xA5, 0x0F}, {0x3D, 0x2D, 0x15, 0x38}};
+    // ---- late-deactivation patterns: a set S of removed cells x the mechanism that removes them.
+    // S (bit c = cell c REMOVED): leading runs (1 cell, 2 cells, 3 cells, whole row / whole layer), interior, trailing, alternating, mixed positions.
+    // mechanisms: P all by PORO=0, N all by NTG=0, M all by MULTPV=0; for |S|>=2 also AZ (lowest cell by ACTNUM, rest PORO=0),
+    // ZA (lowest cell PORO=0, rest by ACTNUM), ROT (cells take PORO/NTG/MULTPV = 0 in turn).
+    const std::vector<unsigned> removed[2] = {{0x01, 0x03, 0x07, 0x0F, 0x08, 0x24, 0x80, 0xC0, 0x55, 0xAA, 0x09, 0x81},
+                                              {0x01, 0x03, 0x07, 0x02, 0x10, 0x12, 0x20, 0x30, 0x15, 0x2A, 0x11, 0x21}};
+    std::vector<Pat> latemask[2], qlate[2];
+    for (int g = 0; g < 2; ++g) {
+        const unsigned allc = (1u << grids[g].n()) - 1;
+        for (unsigned S : removed[g]) {
+            const unsigned low = S & (~S + 1u);
+            { Pat p; p.zp = S; latemask[g].push_back(p); } { Pat p; p.zn = S; latemask[g].push_back(p); } { Pat p; p.zm = S; latemask[g].push_back(p); }
+            if (S != low) {
+                { Pat p; p.act = allc & ~low; p.zp = S & ~low; latemask[g].push_back(p); }
+                { Pat p; p.act = allc & ~(S & ~low); p.zp = low; latemask[g].push_back(p); }
+                { Pat p; int k = 0; for (int c = 0; c < grids[g].n(); ++c) if ((S >> c) & 1) { (k % 3 == 0 ? p.zp : k % 3 == 1 ? p.zn : p.zm) |= 1u << c; ++k; } latemask[g].push_back(p); }
+            }
+        }
+        // quick subset: lead-1 by PORO, lead-2 by NTG, leading row/layer by MULTPV, lead-2 mixed ACTNUM+PORO, lead+interior rotating, interior by PORO, trailing by NTG, alternating by PORO
+        auto mk = [&](unsigned S, char mech) { Pat p; const unsigned low = S & (~S + 1u); if (mech == 'P') p.zp = S; else if (mech == 'N') p.zn = S; else if (mech == 'M') p.zm = S; else if (mech == 'A') { p.act = allc & ~low; p.zp = S & ~low; } else { int k = 0; for (int c = 0; c < grids[g].n(); ++c) if ((S >> c) & 1) { (k % 3 == 0 ? p.zp : k % 3 == 1 ? p.zn : p.zm) |= 1u << c; ++k; } } return p; };
+        const auto& Sg = removed[g];
+        qlate[g] = {mk(Sg[0], 'P'), mk(Sg[1], 'N'), mk(g == 0 ? Sg[3] : Sg[2], 'M'), mk(Sg[1], 'A'), mk(Sg[10], 'R'), mk(g == 0 ? Sg[4] : Sg[3], 'P'), mk(Sg[6], 'N'), mk(Sg[8], 'P')};
+    }
 
-    // regime: all programs of length min_len..depth over alpha (non-decreasing section order) x masks (+ the all-active run)
-    struct Regime { const char* name; const std::vector<int>* alpha; int depth; const std::vector<unsigned>* masks; int min_len; bool need_extra; int only_grid; };
+    std::vector<Pat> qlate2[2] = {{qlate[0][3], qlate[0][4]}, {qlate[1][3], qlate[1][4]}};     // lead-2 (ACTNUM + PORO), lead + interior (PORO, NTG)
+
+    std::vector<int> core4, core, all, late, everything;
+    static const char* pre_names[] = {"PERMX_all", "EQUALS_PERMX", "MULTIPLY_PERMX_C", "MULTNUM_all", "EQUALS_MULTNUM_D", "FLUXNUM_all", "MULTX_grid_def", "EQUALS_2rec", "COPY_PORO_NTG_B", "ADD_PORO", "EQUALREG_PORO", "EQUALS_MULTX_edit_B"};
+    for (int i = 0; i < (int)ops[0].size(); ++i) {
+        const Op& o = ops[0][i];
+        everything.push_back(i);
+        if (!o.late_only) all.push_back(i);
+        if (o.core) core.push_back(i); if (o.core4) core4.push_back(i);
+        bool pre = false; for (const char* nm : pre_names) pre = pre || o.name == nm;
+        if (pre || o.sec >= S_PROPS) late.push_back(i);       // arrays defined before the compaction + every operation after it
+    }
+
+    // regime: all programs of length min_len..depth over alpha (non-decreasing section order) x patterns (+ the all-active run)
+    struct Regime { const char* name; const std::vector<int>* alpha; int depth; const std::vector<Pat>* masks; int min_len; bool need_extra; int only_grid; };
     std::vector<Regime> regimes;
     if (run.quick()) {
         regimes.push_back({"single", &all, 1, allmask, 1, false, -1});
         regimes.push_back({"deep", &core, 3, qmask, 1, false, -1});
         regimes.push_back({"broad", &all, 2, qmask, 2, true, -1});
+        regimes.push_back({"late1", &everything, 1, latemask, 0, false, -1});
+        regimes.push_back({"late2", &late, 2, qlate, 2, false, -1});
+        regimes.push_back({"late3", &late, 3, qlate2, 3, false, -1});
+        regimes.push_back({"latecore", &core, 2, qlate, 2, false, -1});
     } else {
         regimes.push_back({"allmasks", &all, 2, allmask, 1, false, -1});
         regimes.push_back({"deep", &core, 3, qmask, 3, false, -1});
         regimes.push_back({"allmasks3", &core, 3, allmask, 3, false, 1});
         regimes.push_back({"deep4", &core4, 4, qmask, 4, false, -1});
         regimes.push_back({"broad", &all, 3, q4, 3, true, -1});
+        regimes.push_back({"late1", &everything, 1, latemask, 0, false, -1});
+        regimes.push_back({"late", &late, 3, latemask, 2, false, -1});
+        regimes.push_back({"latecore", &core, 3, qlate, 2, false, -1});
     }
     const char* only = std::getenv("C12_ONLY"); const bool dry = std::getenv("C12_DRY") != nullptr;
     uint64_t programs = 0;
@@ -683,7 +784,7 @@ int main(int argc, char** argv) {
         for (int g = 0; g < 2; ++g) {
             if (rg.only_grid >= 0 && g != rg.only_grid) continue;
             std::vector<int> prog;
-            enumerate(ops[g], *rg.alpha, rg.depth, prog, [&](const std::vector<int>& p) {
+            auto visit = [&](const std::vector<int>& p) {
                 if ((int)p.size() < rg.min_len) return;
                 if (rg.need_extra) { bool x = false; for (int o : p) x = x || !ops[g][o].core; if (!x) return; }
                 if (!run.mine()) return;
@@ -691,8 +792,10 @@ int main(int argc, char** argv) {
                 ++programs; run.count(std::string("programs_") + rg.name);
                 if (dry) { run.evaluations += 1 + rg.masks[g].size(); return; }
                 run_program(g, ops[g], p, rg.masks[g]);
-                if (run.samples.size() < 4 && p.size() >= 3 && (programs % 97) == 1) run.sample_str(std::string(rg.name) + " grid " + std::to_string(g) + ": " + prog_str(ops[g], p));
-            });
+                if (run.samples.size() < 6 && p.size() >= 2 && (programs % 97) == 1) run.sample_str(std::string(rg.name) + " grid " + std::to_string(g) + ": " + prog_str(ops[g], p) + (rg.masks[g][0].late() ? " x e.g. pattern " + pat_str(rg.masks[g][programs % rg.masks[g].size()]) : ""));
+            };
+            if (rg.min_len == 0) visit(prog);        // the base deck alone
+            enumerate(ops[g], *rg.alpha, rg.depth, prog, visit);
         }
     }
     run.count("programs", programs);
@@ -701,19 +804,24 @@ int main(int argc, char** argv) {
         std::string names[3];
         for (int i : all) names[ops[0][i].core4 ? 0 : ops[0][i].core ? 1 : 2] += ops[0][i].name + " ";
         run.notes["alphabet_core4"] = names[0]; run.notes["alphabet_core_adds"] = names[1]; run.notes["alphabet_broad_adds"] = names[2];
+        std::string ln; for (int i : late) ln += ops[0][i].name + " "; run.notes["alphabet_late"] = ln;
+        std::string lo; for (int i : everything) if (ops[0][i].late_only) lo += ops[0][i].name + " "; run.notes["alphabet_late_only_adds"] = lo;
+        std::string ql; for (int g = 0; g < 2; ++g) { ql += g ? "; 3x2x1: " : "2x2x2: "; for (auto& p : qlate[g]) ql += pat_str(p) + " "; }
+        run.notes["late_patterns"] = "pattern = actnum/zeroPORO/zeroNTG/zeroMULTPV (decimal bit sets, bit c = cell c; actnum -1 = no ACTNUM keyword). removed-cell sets S: 2x2x2 {0},{0,1},{0,1,2},{0..3},{3},{2,5},{7},{6,7},{0,2,4,6},{1,3,5,7},{0,3},{0,7}; 3x2x1 {0},{0,1},{0,1,2},{1},{4},{1,4},{5},{4,5},{0,2,4},{1,3,5},{0,4},{0,5}; each S by PORO=0, NTG=0, MULTPV=0 and (|S|>=2) lowest cell by ACTNUM + rest PORO=0, lowest cell PORO=0 + rest ACTNUM, PORO/NTG/MULTPV in turn: " + std::to_string(latemask[0].size()) + " + " + std::to_string(latemask[1].size()) + " patterns. quick subset (8 per grid): " + ql;
         run.notes["quick_masks"] = "2x2x2: FE 7F EF F7 DB A5 5A 3C C3 0F F0 81; 3x2x1: 3E 1F 3D 2F 2D 15 2A 0C 33 07 38 21 (hex, bit c = cell c active, cell index i fastest)";
     }
-    run.rule = std::string("programs = ALL sequences (deck order: GRID<=EDIT<=PROPS<=REGIONS<=SOLUTION) of field-property operations over the listed alphabets on grids 2x2x2 and 3x2x1; each program is built with the real Parser+EclipseState once without ACTNUM and once per ACTNUM pattern. ")
-        + (run.quick() ? "quick: [single] every one of the " + std::to_string(all.size()) + " operations alone x ALL ACTNUM patterns (255 + 63); [deep] all programs of length 1..3 over the " + std::to_string(core.size()) + "-operation core alphabet x 12 ACTNUM patterns per grid (single interior/corner inactive cells, pairs, checkerboards, whole layers/rows, two isolated active cells); [broad] all programs of length 2 over the full " + std::to_string(all.size()) + "-operation alphabet containing at least one non-core operation (every OPERATE function, OPERATER, region variants over MULTNUM/FLUXNUM/FIPNUM, EDIT multipliers, PROPS/REGIONS/SOLUTION arrays, defaulted n* entries) x the same 12 patterns. "
-                       : "thorough: [allmasks] all programs of length 1..2 over the full " + std::to_string(all.size()) + "-operation alphabet x ALL ACTNUM patterns (255 for 2x2x2, 63 for 3x2x1); [deep] all programs of length 3 over the " + std::to_string(core.size()) + "-operation core alphabet x 12 patterns per grid; [allmasks3] the same length-3 core programs on 3x2x1 x ALL 63 patterns; [deep4] all programs of length 4 over the pruned " + std::to_string(core4.size()) + "-operation alphabet (PERMX-centred) x 12 patterns per grid; [broad] all programs of length 3 over the full alphabet containing at least one non-core operation x 4 patterns per grid. ")
-        + "Oracles: (1) reference interpreter over global cells with per-cell UNDEF/DEFAULT/VALUE status and deck-unit semantics: get_double/get_int, get_global_* and (double arrays, also partially defined ones) per-cell value + has-value status equal the reference on every active cell (ints exact, doubles 1e-12 relative incl. mD->m2 and bar->Pa), programs legal for the reference must not be rejected; (2) all-active differential: bitwise equal values on the cells active in the masked run. Illegal programs (reference reads an undefined active cell, array length != input box, documented preconditions) are only counted. distinct = distinct vectors of library values on the active cells.";
+    run.rule = std::string("programs = ALL sequences (deck order: GRID<=EDIT<=PROPS<=REGIONS<=SOLUTION) of field-property operations over the listed alphabets on grids 2x2x2 and 3x2x1; each program is built with the real Parser+EclipseState once without ACTNUM and once per inactive-cell pattern. A pattern is a set of removed cells together with the MECHANISM that removes them: ACTNUM (inactive from the start) or zero pore volume through PORO=0, NTG=0 or MULTPV=0 in the base deck (LATE deactivation: the cells are active while GRID and EDIT are processed and are removed, with every existing array re-compacted by reset_actnum, before PROPS/REGIONS/SOLUTION), or a mix; positions include every leading run (1, 2, 3 cells, whole row/layer before the first survivor), interior, trailing and alternating cells. ")
+        + (run.quick() ? "quick: [single] every one of the " + std::to_string(all.size()) + " operations alone x ALL ACTNUM patterns (255 + 63); [deep] all programs of length 1..3 over the " + std::to_string(core.size()) + "-operation core alphabet x 12 ACTNUM patterns per grid (single interior/corner inactive cells, pairs, checkerboards, whole layers/rows, two isolated active cells); [broad] all programs of length 2 over the full " + std::to_string(all.size()) + "-operation alphabet containing at least one non-core operation (every OPERATE function, OPERATER, region variants over MULTNUM/FLUXNUM/FIPNUM, EDIT multipliers, PROPS/REGIONS/SOLUTION arrays, defaulted n* entries) x the same 12 patterns; [late1] the base deck alone and each of the " + std::to_string(everything.size()) + " operations alone x ALL " + std::to_string(latemask[0].size()) + "+" + std::to_string(latemask[1].size()) + " late-deactivation patterns; [late2] all programs of length 2 over the " + std::to_string(late.size()) + "-operation late alphabet (arrays incl. MULTNUM/FLUXNUM region sets defined in GRID/EDIT before the compaction, PORO/NTG revivals, and every PROPS/REGIONS/SOLUTION operation after it: EQUALREG/ADDREG/MULTIREG/OPERATER/COPYREG driven by those region sets, EQUALS/ADD/MULTIPLY/COPY in boxes, direct arrays) x 8 late patterns per grid; [late3] all programs of length 3 over the late alphabet x 2 late patterns per grid (leading pair by ACTNUM+PORO, leading+interior by PORO+NTG); [latecore] all core programs of length 2 x the 8 late patterns. "
+                       : "thorough: [allmasks] all programs of length 1..2 over the full " + std::to_string(all.size()) + "-operation alphabet x ALL ACTNUM patterns (255 for 2x2x2, 63 for 3x2x1); [deep] all programs of length 3 over the " + std::to_string(core.size()) + "-operation core alphabet x 12 patterns per grid; [allmasks3] the same length-3 core programs on 3x2x1 x ALL 63 patterns; [deep4] all programs of length 4 over the pruned " + std::to_string(core4.size()) + "-operation alphabet (PERMX-centred) x 12 patterns per grid; [broad] all programs of length 3 over the full alphabet containing at least one non-core operation x 4 patterns per grid; [late1] the base deck alone and each of the " + std::to_string(everything.size()) + " operations alone x ALL " + std::to_string(latemask[0].size()) + "+" + std::to_string(latemask[1].size()) + " late-deactivation patterns; [late] all programs of length 2..3 over the " + std::to_string(late.size()) + "-operation late alphabet (definitions before the compaction, operations after it) x ALL late patterns; [latecore] all core programs of length 2..3 x 8 late patterns per grid. ")
+        + "Oracles: (1) reference interpreter over global cells with per-cell UNDEF/DEFAULT/VALUE status and deck-unit semantics: get_double/get_int, get_global_* and (double arrays, also partially defined ones) per-cell value + has-value status equal the reference on every active cell (ints exact, doubles 1e-12 relative incl. mD->m2 and bar->Pa), programs legal for the reference must not be rejected, and the library's final active set equals ACTNUM minus the cells whose PORO*NTG*MULTPV is zero after EDIT in the reference; (2) all-active differential: bitwise equal values on the cells active in the masked run (cells zeroed in the base deck but given pore volume again by the program are excluded from this differential only). Illegal programs (reference reads an undefined active cell, array length != input box, documented preconditions) are only counted. distinct = distinct vectors of library values on the active cells.";
     run.assumptions = {
         "reference semantics written from the keyword documentation: direct assignment fills the current input box in i-fastest order, n* entries leave the cell unchanged unless the keyword item has a default and the cell is unset; BOX persists until ENDBOX or the end of the section; a defaulted box in EQUALS/ADD/MULTIPLY/MINVALUE/MAXVALUE/COPY/OPERATE records means the input box or the box of the previous record; MINVALUE raises to a floor, MAXVALUE caps; scalars of ADD/EQUALS/MINVALUE/MAXVALUE and OPERATE parameters carry the target's unit, MULTIPLY factors do not; OPERATE functions act on deck-unit values; region keywords select cells whose region value equals the id, default region set = MULTNUM because GRIDOPTS NRMULT>0; MULTX given in EDIT multiplies the GRID value at the end of EDIT; PERMX/PERMY/PORO cells left unset by an assignment in GRID take the value given for the top-layer cell of their column in that keyword",
         "preconditions taken over from the library's explicit error messages (programs violating them are counted as illegal, not compared): ADD/MULTIPLY/MINVALUE/MAXVALUE need a target that was mentioned before (except multipliers); COPY/COPYREG need a source that is fully defined on the active cells and copy explicitly assigned values only; OPERATE/COPY between an all-cells-storage array (PERMX/PERMY) and an active-cell-storage array is unsupported; region sets must be fully defined",
         "all-cells storage rule: for PERMX/PERMY (stored for inactive cells too, FieldProps.hpp 'Regarding global keywords') box operations that read an INACTIVE cell without value are rejected by the library; such rejections are counted (rejected_by_global_storage_rule), not reported",
-        "base deck defines PORO>0 and NTG>0 everywhere and the alphabet keeps them positive (EclipseState deactivates cells with zero pore volume; checked: active cell count must equal the ACTNUM pattern)",
+        "activity coupling: EclipseState deactivates cells with zero pore volume after GRID/EDIT. In ACTNUM-only patterns the base deck has PORO>0, NTG>0 everywhere and the alphabet keeps them positive; in late-deactivation patterns the reference treats zero-pore-volume cells as active during GRID/EDIT (legality, top-layer fill, region operations) and as inactive afterwards, computing the removed set from its own PORO, NTG, MULTPV values at the end of EDIT (programs may revive cells, e.g. ADD PORO); the library's final ACTNUM must equal that set (key C12:DEACT:activity)",
+        "findings on the base deck alone (no program operation needed, e.g. PORO itself wrong after the compaction) get the key class BASE",
         "violation keys name the operation class of the SHORTEST prefix of the program that already misbehaves on the same grid and ACTNUM pattern",
         "per-cell status of partially defined double arrays and the all-cells storage are read through FieldPropsManager::get_double_field_data(kw, true) (public, auxiliary observation)",
-        "values, boxes, region ids and ACTNUM patterns outside the stated alphabets are not covered; partial box defaults (e.g. 2* 2* 2 2), TRAN*/PORV/MULTPV, satfunc end-point arrays, region operations on EDIT multipliers, PROPS operations reading REGIONS arrays and SCHEDULE-section multipliers are left out"};
+        "values, boxes, region ids and ACTNUM patterns outside the stated alphabets are not covered; partial box defaults (e.g. 2* 2* 2 2), TRAN*/PORV, MULTPV other than as a 0/non-0 base array, MINPV/PINCH deactivation, numerical-aquifer cells, satfunc end-point arrays, region operations on EDIT multipliers, PROPS operations reading REGIONS arrays and SCHEDULE-section multipliers are left out"};
     return run.finish();
 }
